@@ -23,7 +23,7 @@ pub fn spec() -> Spec {
         replay,
         nshards: |_| 16,
         case_cap_s: |t| t.pick(900, 14400),
-        rule: "one case per (input D-set, renumbering); each case is explored under EVERY schedule of the hash-order choice point in simplify::network_cut with at most B deviations from 'first candidate' (G3), every schedule executed twice. Inputs: (a) pseudo_toroidal_cover of every admissible 3-dimensional symbol of size <= M that has one and of the 20 corpus symbols; (b) manifold tilings with finite fundamental group: universal covers and central quotients of the Coxeter groups [3,3,3], [4,3,3] ([3,4,3] thorough) built by the reference Todd-Coxeter, and every entry of covers(s, |G|) for {3,3,3} ({4,3,3} thorough) that the reference model accepts as a branch-free manifold tiling; (c) each input under 9 systematic renumberings. Oracle: input validity by the reference model (complete, branch-free, commuting, every tile and vertex figure loopless, bipartite, V-E+F = 2); a returned D-set is valid in the same sense; for (b) and corpus covers a connected result has the same H1 (textbook presentation + invariant factors) and the same number of subgroup classes of index 2, 3 (crate presentation + coset_tables, validated by C09/C12) as the input; on pseudo-toroidal covers no panic, a connected result has one tile, one vertex and no edge/face/tile of degree 2; for the corpus the isomorphism class of the minimal quotient of the result (reference model) is the same for every renumbering and schedule. Non-trivial = simplify changes the input.",
+        rule: "one case per (input D-set, renumbering); each case is explored under EVERY schedule of the hash-order choice point in simplify::network_cut with at most B deviations from 'first candidate' (G3), every schedule executed twice. Inputs: (a) pseudo_toroidal_cover of every admissible 3-dimensional symbol of size <= M that has one and of the 20 corpus symbols; (b) manifold tilings with finite fundamental group: universal covers and central quotients of the Coxeter groups [3,3,3], [4,3,3] ([3,4,3] thorough) built by the reference Todd-Coxeter, every entry of covers(s, |G|) for {3,3,3} ({4,3,3} thorough) that the reference model accepts as a branch-free manifold tiling, and the manifold entries of covers(s, |G|) for EVERY 3-dimensional symbol of size <= 2 with spherical tiles and vertex figures (branching 1..6) whose orbifold group has order <= 200 (thorough 1200) by the reference Todd-Coxeter (lens spaces and other space forms); (c) each input under 9 systematic renumberings. Oracle: input validity by the reference model (complete, branch-free, commuting, every tile and vertex figure loopless, bipartite, V-E+F = 2); a returned D-set is valid in the same sense; for (b) and corpus covers a connected result has the same H1 (textbook presentation + invariant factors) and the same number of subgroup classes of index 2, 3 (crate presentation + coset_tables, validated by C09/C12) as the input; on pseudo-toroidal covers no panic, a connected result has one tile, one vertex and no edge/face/tile of degree 2; for the corpus the isomorphism class of the minimal quotient of the result (reference model) is the same for every renumbering and schedule. Non-trivial = simplify changes the input.",
         assumptions: &["the choice hook explores exactly the behaviours production code can show: every hash order makes one of the sorted candidates first, and every candidate is first for some order", "pseudo_toroidal_cover / covers supply inputs only; every input is validated by the reference model before use"],
         bounds: |t| json!({"admissible_max_size": t.pick(3, 4), "choice_deviation_bound": 1, "choice_deviation_bound_2_on_inputs_up_to_chambers": t.pick(0, 96), "renumberings": t.pick(json!({"corpus": "identity + reverse at bound 1", "other pseudo-toroidal covers": "identity at bound 1, reverse at bound 0", "finite": "identity + shuffle at bound 1"}), json!(9)), "determinism_replay_every_nth_schedule": t.pick(5, 1), "subgroup_class_index": 3}),
     }
@@ -294,6 +294,65 @@ fn run(ctx: &mut Ctx) {
             check_unit(ctx, inp, &rname, &p, &rk);
             let fam = if inp.corpus { "corpus" } else if inp.ptc { "ptc" } else { "finite" };
             ctx.add(&format!("cpu_us_{}", fam), t0.elapsed().as_micros() as i64);
+        }
+    }
+    if ctx.nviolations() == 0 {
+        let t0 = std::time::Instant::now();
+        finite_family(ctx);
+        ctx.add("cpu_us_finite_family", t0.elapsed().as_micros() as i64);
+    }
+}
+
+/// family (b'): manifold covers of every small 3-dimensional symbol with spherical tiles and vertex figures
+/// whose orbifold group is finite (reference Todd-Coxeter on the textbook presentation): lens spaces and
+/// other spherical space forms in the numbering `covers` produces.  Sharded by base symbol.
+fn finite_family(ctx: &mut Ctx) {
+    use crate::enumerate::symbols::for_each_branching;
+    use crate::refmodel::groups::Tc;
+    use crate::refmodel::pi1::textbook_pi1;
+    let tier = ctx.tier;
+    let cap = tier.pick(200usize, 1200usize);
+    for n in 1..=2usize {
+        for ops in dset_representatives3(n) {
+            let mut bases: Vec<RS> = vec![];
+            for_each_branching(&ops, &[1, 2, 3, 4, 5, 6], usize::MAX, &mut |s| {
+                if components_spherical(s, 0) && components_spherical(s, 1) {
+                    bases.push(s.clone());
+                }
+            });
+            for b in bases {
+                if !ctx.take() {
+                    continue;
+                }
+                let tb = textbook_pi1(&b);
+                let order = match Tc::run(tb.ngens, &tb.rels, &[], 40 * cap + 2000) {
+                    Some(a) if a.len() <= cap => a.len(),
+                    _ => continue,
+                };
+                ctx.announce(&json!({"input": "finite family", "base": rs_to_json(&b), "order": order}));
+                let cs = match std::panic::catch_unwind(std::panic::AssertUnwindSafe(|| covers(&to_partial_dsym(&b), order))) {
+                    Ok(c) => c,
+                    Err(_) => continue, // C05's business
+                };
+                ctx.add("finite_bases", 1);
+                for c in cs {
+                    if let Some(r) = from_dsym(&c) {
+                        if r.n >= 4 && valid_manifold_tiling(&r).is_ok() && r.is_connected() {
+                            ctx.add("finite_manifold_covers", 1);
+                            let inp = Input { name: format!("{}-chamber manifold cover of the finite-group symbol {}", r.n, b.describe()), s: r, ptc: false, rigid: true, corpus: false };
+                            let id: Vec<usize> = (0..inp.s.n).collect();
+                            check_unit(ctx, &inp, "identity", &id, &None);
+                            if tier.is_thorough() {
+                                let rev: Vec<usize> = (0..inp.s.n).rev().collect();
+                                check_unit(ctx, &inp, "reverse", &rev, &None);
+                            }
+                            if ctx.nviolations() > 0 {
+                                return;
+                            }
+                        }
+                    }
+                }
+            }
         }
     }
 }
